@@ -33,6 +33,7 @@ struct C12 : Scenario {
         o.max_rot_steps = tier == "quick" ? 14 : 30;
         o.min_rot_steps = 4;
         Cfg c = swarm_cfg(r, o);
+        if (r.chance(0.3)) vary_machine(r, c);
         Derived d = derive(c);
         c.tracking = ""; c.verbose = false;
         c.to_plan(p);
